@@ -240,6 +240,10 @@ func (st *State) execCallValues(call *ast.CallExpr) []Outcome {
 				return st.callFunc(fn, nil, args, call)
 			}
 		}
+		if fv.K == KInt {
+			// an opaque function value (read from a field): uninterpreted applicator over (function, arguments)
+			return one(flattenTuple(st.applyOpaque(fv, st.typeOf(c.fval), args))...)
+		}
 		if fv.K == KFunc && fv.S == "closure" {
 			panic(vcErr("call of closure value " + exprStr(call) + " not supported"))
 		}
@@ -391,6 +395,19 @@ func (st *State) callFunc(fn *types.Func, recv *Val, args []Val, call *ast.CallE
 	V := st.fc.V
 	fn = fn.Origin()
 	if vals, ok := st.stdlibSpecial(fn, recv, args, call); ok {
+		return []Outcome{{st: st, kind: oNormal, vals: vals}}
+	}
+	// contracts instantiated per function-valued argument: "down@swapEle" is used when a func argument is swapEle
+	if fct := V.contractForInst(fn, args); fct != nil {
+		if len(fct.PanicsIf) > 0 {
+			cond := st.calleePanicCond(fct, fn, recv, args)
+			ps := st.clone()
+			ps.facts = ps.facts.push(guarded(ps.guard, cond))
+			st.facts = st.facts.push(guarded(st.guard, sNot(cond)))
+			vals := st.applyContract(fct, fn, recv, args, call)
+			return []Outcome{{st: st, kind: oNormal, vals: vals}, {st: ps, kind: oPanic}}
+		}
+		vals := st.applyContract(fct, fn, recv, args, call)
 		return []Outcome{{st: st, kind: oNormal, vals: vals}}
 	}
 	if fct := V.contractFor(fn); fct != nil && !fct.Inline {
@@ -854,6 +871,10 @@ func (st *State) appendSeq(s Val, sT types.Type, src Val) Val {
 
 func (st *State) applyContract(fct *FuncContract, fn *types.Func, recv *Val, args []Val, call *ast.CallExpr) []Val {
 	fc := st.fc
+	if g := fc.V.group; g != "" && len(contractTags(fct)) > 0 {
+		// proof groups are consistent across calls: only the callee's untagged clauses and those of the current group apply
+		fct = filterContract(fct, g)
+	}
 	sig := fn.Type().(*types.Signature)
 	names := map[string]Val{}
 	if recv != nil && sig.Recv() != nil {
@@ -879,6 +900,22 @@ func (st *State) applyContract(fct *FuncContract, fn *types.Func, recv *Val, arg
 			names[p.Name()] = a
 		}
 		names[fmt.Sprintf("arg%d", i+1)] = a
+	}
+	for _, gp := range fct.GhostParams {
+		if v, ok := st.ghost[gp]; ok {
+			names[gp] = v
+			continue
+		}
+		found := false
+		for o, v := range st.vars {
+			if o.Name() == gp && v.K == KInt {
+				names[gp] = v
+				found = true
+			}
+		}
+		if !found {
+			panic(vcErr("call of " + fct.Key + " needs a ghost or local variable named " + gp + " for its ghost parameter"))
+		}
 	}
 	pos := token.NoPos
 	what := fct.Pkg + "." + fct.Key
@@ -955,6 +992,15 @@ func (st *State) applyContract(fct *FuncContract, fn *types.Func, recv *Val, arg
 			rn[g.Name] = vInt(fc.fresh("ghost_"+g.Name, "Int"), nil)
 		}
 	}
+	for _, g := range fct.Ghosts {
+		if g.Kind == "ghost" {
+			// the callee's ghost results stay visible to the caller's later anchors as last_<name>
+			st.ghost["last_"+g.Name] = rn[g.Name]
+			if fc.rec != nil {
+				fc.rec.ghosts["last_"+g.Name] = true
+			}
+		}
+	}
 	for _, tn := range fct.Traced {
 		rn["tr_"+tn] = vRaw(fc.fresh("ghost_tr_"+tn, "(Array Int Int)"), "(Array Int Int)")
 		rn["ntr_"+tn] = vInt(fc.fresh("ghost_ntr_"+tn, "Int"), nil)
@@ -964,6 +1010,12 @@ func (st *State) applyContract(fct *FuncContract, fn *types.Func, recv *Val, arg
 		st.assume(env2.evalBool(e.Expr))
 	}
 	st.applyCallLockEffects(fct, names)
+	if call != nil && fc.inlineDepth == 0 && call != fc.topCall {
+		// a contracted call nested in an expression (e.g. an if condition): its after-call anchor runs right here
+		if ord, ok := fc.callOrd[call]; ok {
+			st.runAnchor(fmt.Sprintf("after-call%d", ord), call.End())
+		}
+	}
 	return results
 }
 
@@ -1033,9 +1085,10 @@ func (st *State) havocAbove(name, sort, alloc string, twoLevel bool) {
 }
 
 type target struct {
-	kind string // "elems" | "field" | "var"
+	kind string // "elems" | "field" | "var" | "fieldset"
 	arr, lo, hi string
 	ref  string
+	cond string // fieldset: membership condition over the reference variable g_a
 }
 
 // havocTargets havocs exactly the footprint named by modifies clauses.
@@ -1074,6 +1127,8 @@ func (st *State) havocTargets(env *SpecEnv, mods []*Clause, old *Snapshot) {
 		for _, t := range h.targets {
 			if h.two {
 				st.noteWrite(n, t.arr)
+			} else if t.cond != "" {
+				st.noteUnknownWrite(n)
 			} else {
 				st.noteWrite(n, t.ref)
 			}
@@ -1095,7 +1150,11 @@ func (st *State) havocTargets(env *SpecEnv, mods []*Clause, old *Snapshot) {
 		} else {
 			var in []string
 			for _, t := range h.targets {
-				in = append(in, sEq("g_a", t.ref))
+				if t.cond != "" {
+					in = append(in, t.cond)
+				} else {
+					in = append(in, sEq("g_a", t.ref))
+				}
 			}
 			st.assume(fmt.Sprintf("(forall ((g_a Int)) (! (=> (and (< g_a %s) (not %s)) (= (select %s g_a) (select %s g_a))) :pattern ((select %s g_a))))",
 				old.alloc, sOr(in...), newH, oldH, newH))
@@ -1119,6 +1178,33 @@ func sortStrings(s []string) {
 
 // resolveTarget translates a modifies target expression into heap footprints.
 func (st *State) resolveTarget(env *SpecEnv, e *SNode, add func(name, sort string, two bool, t target), vars *[]types.Object) {
+	if e.Op == "call" && e.Text == "elemIndex" && len(e.Args) == 1 {
+		// the field "index" of every element pointed to by the slice s; membership of a reference r is decided by
+		// its own (old) index field: 0 <= r.index < len(s) && s[r.index] == r  (valid under idxOK(s))
+		sv := env.eval(e.Args[0])
+		if sv.K != KSlice {
+			env.fail("elemIndex needs a slice of pointers")
+		}
+		pt, ok := sliceElemType(sv.T).Underlying().(*types.Pointer)
+		if !ok {
+			env.fail("elemIndex needs a slice of pointers")
+		}
+		structT := pt.Elem()
+		_, comps, _ := fieldComps(structT, "index")
+		if len(comps) != 1 {
+			env.fail("elemIndex: element type has no scalar field index")
+		}
+		hname := ptrHeapName(structT, comps[0])
+		hidx := st.heapIn(env.heapMap(), hname, ptrSort(comps[0]))
+		et := sliceElemType(sv.T)
+		ecs := flatComps(et)
+		hel := st.heapIn(env.heapMap(), elemHeapName(et, ecs[0]), elemSort(ecs[0]))
+		_ = hidx
+		// membership of reference g_a in s: some slot of (old) s holds it
+		cond := fmt.Sprintf("(not (forall ((g_mk Int)) (=> (and (<= %s g_mk) (< g_mk %s)) (not (= (select (select %s %s) g_mk) g_a)))))", sv.off(), sAdd(sv.off(), sv.length()), hel, sv.arr())
+		add(hname, ptrSort(comps[0]), false, target{kind: "fieldset", cond: cond})
+		return
+	}
 	switch e.Op {
 	case "slice", "id", "sel", "index", "un":
 	default:
@@ -1381,4 +1467,58 @@ func (st *State) calleePanicCond(fct *FuncContract, fn *types.Func, recv *Val, a
 		ds = append(ds, env.evalBool(p.Expr))
 	}
 	return st.define("calleepanics", "Bool", sOr(ds...))
+}
+
+// contractForInst finds "key@name" for the first function-typed argument that is a declared function.
+func (V *Verifier) contractForInst(fn *types.Func, args []Val) *FuncContract {
+	pkg, key := funcKey(fn)
+	pc := V.contractsByName[pkg]
+	if pc == nil {
+		return nil
+	}
+	for _, a := range args {
+		if a.K == KFunc && a.Obj != nil {
+			if f, ok := a.Obj.(*types.Func); ok {
+				if c := pc.Funcs[key+"@"+f.Name()]; c != nil {
+					return c
+				}
+			}
+		}
+	}
+	return nil
+}
+
+// applyOpaque applies a function value that is only known as an opaque token (e.g. a comparator stored in a field).
+// It is an uninterpreted function of the token and the flattened arguments: pure and deterministic during a call.
+func (st *State) applyOpaque(fv Val, ft types.Type, args []Val) Val {
+	sig, ok := ft.Underlying().(*types.Signature)
+	if !ok {
+		panic(vcErr("call of non-function value"))
+	}
+	st.fc.noteAssumption("function values stored in fields (comparators) are pure and deterministic for the duration of a call")
+	terms := []string{fv.S}
+	sorts := []string{"Int"}
+	for _, a := range args {
+		terms = append(terms, flatten(a)...)
+		sorts = append(sorts, flatSorts(a)...)
+	}
+	var outs []Val
+	for i := 0; i < sig.Results().Len(); i++ {
+		rt := st.subst(sig.Results().At(i).Type())
+		comps := flatComps(rt)
+		rterms := make([]string, len(comps))
+		for j, c := range comps {
+			name := fmt.Sprintf("g_app%d_%s_r%d%s", len(terms)-1, sanitize(strings.Join(sorts, "")), i, sanitize(c.Path))
+			st.fc.declareFun(name, sorts, c.Sort)
+			rterms[j] = sApp(name, terms...)
+		}
+		outs = append(outs, unflatten(rt, rterms))
+	}
+	if len(outs) == 0 {
+		return Val{K: KUnit}
+	}
+	if len(outs) == 1 {
+		return outs[0]
+	}
+	return Val{K: KTuple, Sub: outs}
 }
